@@ -344,7 +344,7 @@ fn epilogue(sc: &MScenario, sim: &mut Sim, h: &mut MHandle) -> Option<Violation>
     for obj in held {
         let id = obj.id;
         let opi = with_w(|w| {
-            let opi = w.op_invoke(engine::CONTROLLER, 8000, Op::Return { slot: 0 });
+            let opi = w.op_invoke(engine::CONTROLLER, 8000, Op::Return { slot: 0, unwinding: false });
             w.ops[opi].target = Some(id);
             w.objs[id as usize].holder = None;
             opi
